@@ -419,7 +419,7 @@ fn run(ctx: &mut Ctx) {
     // before the last frame) - the counter line shows the exact numbers however many digits they have
     for (k, (df, n)) in large_counts(ctx.tier.thorough()).into_iter().enumerate() {
         job += 1;
-        if ctx.mine(job) {
+        if ctx.mine(job) && crate::run::file_source_streams() {
             ctx.count("large-count");
             large_count_case(ctx, k, df, n);
         }
